@@ -209,9 +209,11 @@ def plan_C19(seed, run, engine, tier="quick", entry=None):
         gs = rest       # tolerances at the scale of the columns that are not blown up
     ops = []
     k = G.gen_knobs(rng, solver, p, fi, gs, ample=(rng.random() < 0.6) and not kw)
-    st, w0 = P._start(rng, prob)
+    # (degenerate structure matters most under a warm start: most coordinate-descent plans have one)
+    st, w0 = P._start(rng, prob, allow_cold=not (solver in ("AndersonCD", "GroupBCD", "MultiTaskBCD", "GramCD")
+                                                 and rng.random() < 0.5))
     dcol = (prob["data"].get("degen") or {}).get("col")
-    if st == "point" and dcol is not None and dcol < len(w0) and not prob["T"] and rng.random() < 0.7 \
+    if st == "point" and dcol is not None and dcol < len(w0) and not prob["T"] and rng.random() < 0.85 \
             and prob["family"]["datafit"] != "QuadraticSVC":
         # the warm start puts mass on the degenerate column
         w0 = list(w0)
@@ -239,7 +241,7 @@ def plan_C19(seed, run, engine, tier="quick", entry=None):
     Xa = np.abs(np.asarray(prob["data"]["X"], dtype=float))
     ya = np.abs(np.asarray(prob["data"]["y"], dtype=float))
     floor = 1e-13 * max(float(Xa.max(initial=0.0)), 1e-300) * max(float(ya.max(initial=0.0)), 1.0)
-    if st == "point" and solver in ("AndersonCD", "GroupBCD", "MultiTaskBCD", "GramCD") and rng.random() < 0.8 \
+    if st == "point" and solver in ("AndersonCD", "GroupBCD", "MultiTaskBCD", "GramCD") and rng.random() < 0.9 \
             and not rest:
         # degenerate structure under a warm start: the quiescent solve from the surviving buffers
         # is judged against a cold start of the same problem (bounded liveness, C05 d)
